@@ -80,6 +80,10 @@ func runC08_4(c *core.Ctx) {
 			if x, y, op, ok := flow.Cmp(e.Cond); ok && flow.IsNil(f.Info, y) && isErrorType(f.Info.TypeOf(x)) && (op == token.NEQ) == e.Sense {
 				in |= fFailed
 			}
+			// err == EAGAIN (any named error value) also says that the call failed
+			if l, r, eq, ok := flow.Equality(e); ok && eq && isErrorType(f.Info.TypeOf(l)) && !flow.IsNil(f.Info, r) && flow.ObjOf(f.Info, r) != nil {
+				in |= fFailed
+			}
 		}
 		return in
 	}
@@ -305,7 +309,7 @@ func runC08_7(c *core.Ctx) {
 	guarded := false
 	ast.Inspect(f.Decl.Body, func(n ast.Node) bool {
 		if is, ok := n.(*ast.IfStmt); ok {
-			if o, ok := flow.ObjOf(f.Info, is.Cond).(*types.Var); ok && o.Name() == "hasUDP" {
+			if o, ok := flow.ObjOf(f.Info, is.Cond).(*types.Var); ok && nameOf(o) == "hasUDP" {
 				for _, st := range is.Body.List {
 					if as, ok := st.(*ast.AssignStmt); ok {
 						for k, l := range as.Lhs {
@@ -337,7 +341,7 @@ func runC08_7(c *core.Ctx) {
 	derived := false
 	ast.Inspect(f.Decl.Body, func(n ast.Node) bool {
 		if as, ok := n.(*ast.AssignStmt); ok && len(as.Lhs) == 1 {
-			if o, ok := flow.ObjOf(f.Info, as.Lhs[0]).(*types.Var); ok && o.Name() == "hasUDP" {
+			if o, ok := flow.ObjOf(f.Info, as.Lhs[0]).(*types.Var); ok && nameOf(o) == "hasUDP" {
 				ast.Inspect(as.Rhs[0], func(x ast.Node) bool {
 					if call, ok := x.(*ast.CallExpr); ok && flow.IsPkgFunc(f.Info, call, "strings", "HasPrefix") && len(call.Args) == 2 {
 						if cv := flow.ConstOf(f.Info, call.Args[1]); cv != nil && constant.StringVal(cv) == "udp" {
